@@ -608,3 +608,4 @@ def run(ctx):
     r13_select_case_compares_built_in_values(ctx, T)
     from . import c01
     c01.r3_determinism(ctx, "C12.R14")
+    c08.r13_argument_validators_mean_what_they_say(ctx, "C12.R15")
